@@ -27,6 +27,7 @@ type c26Chain struct {
 	bitcoin.Chain
 	txs     map[bitcoin.Hash]*bitcoin.Transaction
 	counter uint32
+	pending []*c26Pending
 }
 
 func c26NewChain() *c26Chain {
@@ -89,40 +90,86 @@ func c26Value(t *rapid.T, label string) int64 {
 	}
 }
 
-// fund records a previous transaction paying `value` to `script` at a drawn
-// output index (next to spam outputs) and returns the UTXO pointing at it.
+// fund registers an intended previous output; the previous transactions are
+// built by seal(): outputs registered under the same non-empty group may end
+// up as different outputs of ONE funding transaction (a depositor batching
+// deposits), next to spam outputs. The returned UTXO's outpoint is filled in
+// by seal().
+type c26Pending struct {
+	script bitcoin.Script
+	value  int64
+	utxo   *bitcoin.UnspentTransactionOutput
+	group  string
+}
+
 func (c *c26Chain) fund(t *rapid.T, script bitcoin.Script, value int64, label string) *bitcoin.UnspentTransactionOutput {
-	nOut := rapid.IntRange(1, 3).Draw(t, label+"Outs")
-	idx := rapid.IntRange(0, nOut-1).Draw(t, label+"Idx")
-	c.counter++
-	var prev bitcoin.Hash
-	binary.LittleEndian.PutUint32(prev[:], c.counter)
-	prev[31] = 0xc2
-	tx := &bitcoin.Transaction{
-		Version: 1,
-		Inputs: []*bitcoin.TransactionInput{{
-			Outpoint:        &bitcoin.TransactionOutpoint{TransactionHash: prev, OutputIndex: c.counter},
-			SignatureScript: []byte{0x51},
-			Sequence:        0xffffffff,
-		}},
-	}
-	for i := 0; i < nOut; i++ {
-		if i == idx {
-			tx.Outputs = append(tx.Outputs, &bitcoin.TransactionOutput{Value: value, PublicKeyScript: script})
-		} else {
-			// spam/change output of a different value to somebody else
-			tx.Outputs = append(tx.Outputs, &bitcoin.TransactionOutput{
-				Value:           value/2 + int64(i) + 7,
-				PublicKeyScript: c26P2WPKH(c26Bytes20(t, label+"Spam")),
-			})
+	return c.fundGroup(script, value, "")
+}
+
+func (c *c26Chain) fundGroup(script bitcoin.Script, value int64, group string) *bitcoin.UnspentTransactionOutput {
+	u := &bitcoin.UnspentTransactionOutput{Outpoint: &bitcoin.TransactionOutpoint{}, Value: value}
+	c.pending = append(c.pending, &c26Pending{script, value, u, group})
+	return u
+}
+
+// seal builds the previous transactions; returns the largest number of
+// intended outputs sharing one transaction.
+func (c *c26Chain) seal(t *rapid.T) int {
+	maxShared := 0
+	pending := c.pending
+	c.pending = nil
+	for len(pending) > 0 {
+		chunk := []*c26Pending{pending[0]}
+		rest := pending[1:]
+		if g := pending[0].group; g != "" {
+			// pull up to 3 more outputs of the same group into this transaction
+			var keep []*c26Pending
+			for _, p := range rest {
+				if p.group == g && len(chunk) < 4 && rapid.IntRange(0, 2).Draw(t, "sharesFundingTx") > 0 {
+					chunk = append(chunk, p)
+				} else {
+					keep = append(keep, p)
+				}
+			}
+			rest = keep
+		}
+		pending = rest
+		maxShared = max(maxShared, len(chunk))
+		chunk = rapid.Permutation(chunk).Draw(t, "fundingOutputOrder")
+		c.counter++
+		var prev bitcoin.Hash
+		binary.LittleEndian.PutUint32(prev[:], c.counter)
+		prev[31] = 0xc2
+		tx := &bitcoin.Transaction{
+			Version: 1,
+			Inputs: []*bitcoin.TransactionInput{{
+				Outpoint:        &bitcoin.TransactionOutpoint{TransactionHash: prev, OutputIndex: c.counter},
+				SignatureScript: []byte{0x51},
+				Sequence:        0xffffffff,
+			}},
+		}
+		indexes := make([]uint32, len(chunk))
+		for i, p := range chunk {
+			for spam := rapid.IntRange(0, 1).Draw(t, "spamOutputsBefore"); spam > 0; spam-- {
+				tx.Outputs = append(tx.Outputs, &bitcoin.TransactionOutput{
+					Value:           p.value/2 + int64(len(tx.Outputs)) + 7,
+					PublicKeyScript: c26P2WPKH(c26Bytes20(t, "spamHash")),
+				})
+			}
+			indexes[i] = uint32(len(tx.Outputs))
+			tx.Outputs = append(tx.Outputs, &bitcoin.TransactionOutput{Value: p.value, PublicKeyScript: p.script})
+		}
+		if rapid.Bool().Draw(t, "spamOutputAfter") {
+			tx.Outputs = append(tx.Outputs, &bitcoin.TransactionOutput{Value: 4242, PublicKeyScript: c26P2WPKH(c26Bytes20(t, "spamHash"))})
+		}
+		h := tx.Hash()
+		c.txs[h] = tx
+		for i, p := range chunk {
+			p.utxo.Outpoint.TransactionHash = h
+			p.utxo.Outpoint.OutputIndex = indexes[i]
 		}
 	}
-	h := tx.Hash()
-	c.txs[h] = tx
-	return &bitcoin.UnspentTransactionOutput{
-		Outpoint: &bitcoin.TransactionOutpoint{TransactionHash: h, OutputIndex: uint32(idx)},
-		Value:    value,
-	}
+	return maxShared
 }
 
 // sign signs every input sighash with the given key (nonce 1: a valid ECDSA
@@ -290,10 +337,8 @@ func TestVerif_C26_DepositSweep(t *testing.T) {
 		pkh := c26Hash160(key.PubKey().SerializeCompressed())
 
 		main, mainKind := c26MainUtxo(t, c, pkh, true)
-		var want []c26Outpoint
 		var total int64
 		if main != nil {
-			want = append(want, c26OutpointOf(main))
 			total += main.Value
 		}
 		nDep := rapid.IntRange(1, 20).Draw(t, "deposits")
@@ -346,9 +391,8 @@ func TestVerif_C26_DepositSweep(t *testing.T) {
 				kind += "sh"
 			}
 			kinds[kind] = true
-			d.Utxo = c.fund(t, lock, c26Value(t, "depositValue"), "deposit")
+			d.Utxo = c.fundGroup(lock, c26Value(t, "depositValue"), "deposits")
 			deposits[i] = d
-			want = append(want, c26OutpointOf(d.Utxo))
 			total += d.Utxo.Value
 			fmt.Fprintf(&desc, " %s:%d", kind, d.Utxo.Value)
 			if depositWallet != pkh {
@@ -356,6 +400,14 @@ func TestVerif_C26_DepositSweep(t *testing.T) {
 			}
 		}
 		fee, feeClass := c26Fee(t, total, "fee")
+		shared := c.seal(t)
+		var want []c26Outpoint
+		if main != nil {
+			want = append(want, c26OutpointOf(main))
+		}
+		for _, d := range deposits {
+			want = append(want, c26OutpointOf(d.Utxo))
+		}
 
 		builder, err := assembleDepositSweepTransaction(c, pub, main, deposits, fee)
 		if err != nil {
@@ -379,9 +431,9 @@ func TestVerif_C26_DepositSweep(t *testing.T) {
 			mainVal = main.Value
 		}
 		nt := main != nil && len(kinds) >= 2
-		st.Case(nt, fmt.Sprintf("main=%s:%d deps=[%s] fee=%d", mainKind, mainVal, strings.TrimSpace(desc.String()), fee),
+		st.Case(nt, fmt.Sprintf("main=%s:%d deps=[%s] fee=%d max-per-funding-tx=%d", mainKind, mainVal, strings.TrimSpace(desc.String()), fee, shared),
 			"main:"+mainKind, "deposits:"+c26Bucket(nDep), "fee:"+feeClass, fmt.Sprintf("deposit-kinds:%d", len(kinds)),
-			"foreign-wallet-deposits:"+foreignMode)
+			"foreign-wallet-deposits:"+foreignMode, fmt.Sprintf("deposits-sharing-a-funding-tx:%d", shared))
 	})
 }
 
@@ -511,6 +563,7 @@ func TestVerif_C26_Redemption(t *testing.T) {
 			main = c.fund(t, c26P2WPKH(pkh), mainValue, "main")
 		}
 
+		c.seal(t)
 		shapeSel := rapid.IntRange(0, 2).Draw(t, "shape")
 		var builder *bitcoin.TransactionBuilder
 		var err error
@@ -637,6 +690,7 @@ func TestVerif_C26_MovingFunds(t *testing.T) {
 			feeClass = "even-split"
 		}
 
+		c.seal(t)
 		builder, err := assembleMovingFundsTransaction(c, main, targets, fee)
 		if err != nil {
 			t.Fatalf("assembly failed: %v", err)
@@ -677,11 +731,17 @@ func TestVerif_C26_MovedFundsSweep(t *testing.T) {
 		movedKind := "p2wpkh"
 		var moved *bitcoin.UnspentTransactionOutput
 		if rapid.IntRange(0, 3).Draw(t, "legacyMoved") == 0 {
-			moved, movedKind = c.fund(t, c26P2PKH(pkh), c26Value(t, "movedValue"), "moved"), "p2pkh"
+			moved, movedKind = c.fundGroup(c26P2PKH(pkh), c26Value(t, "movedValue"), "wallet"), "p2pkh"
 		} else {
-			moved = c.fund(t, c26P2WPKH(pkh), c26Value(t, "movedValue"), "moved")
+			moved = c.fundGroup(c26P2WPKH(pkh), c26Value(t, "movedValue"), "wallet")
 		}
 		main, mainKind := c26MainUtxo(t, c, pkh, true)
+		if main != nil {
+			// synthetic but accepted by the assembler: both wallet outputs may
+			// come from one transaction (different output indexes)
+			c.pending[len(c.pending)-1].group = "wallet"
+		}
+		shared := c.seal(t)
 		want := []c26Outpoint{c26OutpointOf(moved)}
 		total := moved.Value
 		mainVal := int64(-1)
@@ -706,6 +766,6 @@ func TestVerif_C26_MovedFundsSweep(t *testing.T) {
 			t.Fatalf("transaction pays fee %d, proposed %d", paid, fee)
 		}
 		st.Case(main != nil, fmt.Sprintf("moved=%s:%d main=%s:%d fee=%d", movedKind, moved.Value, mainKind, mainVal, fee),
-			"moved:"+movedKind, "main:"+mainKind, "fee:"+feeClass)
+			"moved:"+movedKind, "main:"+mainKind, "fee:"+feeClass, fmt.Sprintf("same-funding-tx:%v", shared > 1))
 	})
 }
